@@ -12,3 +12,8 @@ ASSUMPTIONS = [
 
 def families(tier):
     return families_for(('C01',), tier)
+
+
+def signature(f):
+    """Failures attributed to a listed finding (code with '@...') are identified by their code alone, all others by family and code."""
+    return f['code'] if '@' in f['code'] else f['family'] + ':' + f['code']
